@@ -528,7 +528,12 @@ pub fn plan_run(seed: u64, thorough: bool, run: u64, corpus: &[(String, Vec<u8>)
         if thorough {
             gen::gen_case(&mut rng, 10, 12).1
         } else {
-            gen::gen_case_small(&mut rng, 5, 7).1
+            if run % 230 == 11 {
+                // > 255 classes: thresholds in counts and offsets
+                gen::gen_case_small(&mut rng, 500, 2).1
+            } else {
+                gen::gen_case_small(&mut rng, 5, 7).1
+            }
         }
     } else {
         corpus.get((run - n_gen) as usize)?.1.clone()
